@@ -1041,7 +1041,11 @@ func checkModuleMigrationsWriteNoData(p *Prog, r *Report, kp func(string, string
 					}
 					// a raw delete (or a write that is not the DID setter's) in x/did removes or rewrites documents and tombstones:
 					// "cleaning up orphans" takes the tombstone, whose document is empty, for one
-					if (so.Op == "Set" || so.Op == "Delete") && InPkgs(so.Fn, "x/did") && !didM.setters[g] && !(so.Key != nil && otherFamilyKey(p, so.Key)) {
+					ownFamily := false // a further family of the module (its own prefix variable next to DIDKeyPrefix) is the migration's to build
+					if pn := PrefixName(so.Prefix); pn != "" && so.Prefix.Op == "gval" && !strings.HasSuffix(pn, "types.DIDKeyPrefix") {
+						ownFamily = true
+					}
+					if (so.Op == "Set" || so.Op == "Delete") && InPkgs(so.Fn, "x/did") && !didM.setters[g] && !ownFamily && !(so.Key != nil && otherFamilyKey(p, so.Key)) {
 						bad = "a raw " + so.Op + " on the did store (in " + FuncName(g) + ")"
 					}
 				}
